@@ -139,7 +139,13 @@ class _FakeThread(object):
     def start(self):
         w = _FakeThread.world
         if w is None or not w.defer_post_tx:
-            self.target(*self.args, **self.kwargs)
+            if w is not None:
+                w.in_post_commit = getattr(w, 'in_post_commit', 0) + 1
+            try:
+                self.target(*self.args, **self.kwargs)
+            finally:
+                if w is not None:
+                    w.in_post_commit -= 1
         else:
             w.post(Event('post', 'post-commit batch', self))
 
